@@ -47,6 +47,12 @@ CLAIMED = {
   "technique": "Lean 4 proof (invariant by induction over builder steps, all fault assignments) + exhaustive fault enumeration with model-vs-implementation correspondence",
   "design_ref": "4 C03",
  },
+ "C04": {
+  "text": "Lean 4 theorems on a scheduled refinement of the builder model (any list of load-completion and poll events, nothing assumed about it): completion events never change the builder state, a poll either stutters or performs exactly the next loop iteration (sched_refines), any two schedules that finish the build reach the same state - graph, redirects, loader-call log, lockfile writes (sched_irrelevant) - and that state is the schedule-free runLoop result (sched_eq_runLoop); fuel irrelevance of runLoop. After the fix of F2 (HashMap -> IndexMap) the model has no hash-order parameter. Tied to /repo by a loader whose futures complete only when the harness releases them: the real build future is polled by hand, all completion orders are enumerated per world (capped), plus random schedules with spurious polls and repeated runs; every run must equal the reference run and the model's result.",
+  "note": "OS-thread interleavings do not exist (the builder is !Send and single-threaded by construction); a loader that is itself nondeterministic is outside the property. JSR metadata futures (spawned through the Executor) are exercised with the registry worlds.",
+  "technique": "Lean 4 proof (refinement / simulation: scheduled execution is a prefix of the deterministic loop) + schedule enumeration against the implementation",
+  "design_ref": "4 C04",
+ },
 }
 NOT_APPLICABLE = {}
 ALL = [f"C{i:02d}" for i in range(1, 21)]
